@@ -79,7 +79,8 @@ def impl_inspect(cfg, o, rng):
                       for i in idx),
                 world.abs_spec(sp.one_level()) if not sp.is_leaf() else world.abs_spec(sp),
                 1,
-                (0, pths[1]) if pths[0] == 0 else pths)     # again, for the array-level model of Paths
+                (0, pths[1]) if pths[0] == 0 else pths,     # again, for the array-level model of Paths
+                (0, accs[1]) if accs[0] == 0 else accs)     # and of Accessors
 
 
 def impl_pair(cfg1, o1, cfg2, o2, rng, hook=None):
